@@ -1,6 +1,7 @@
 package rules
 
 import (
+	"go/constant"
 	"go/types"
 	"strings"
 
@@ -174,4 +175,11 @@ func typeKey(nt *types.Named) string {
 		s = "grpchan"
 	}
 	return s + "." + nt.Obj().Name()
+}
+
+func constantInt64(v constant.Value) (int64, bool) {
+	if v.Kind() != constant.Int {
+		return 0, false
+	}
+	return constant.Int64Val(v)
 }
